@@ -30,6 +30,21 @@ extern "C" fn fake_munmap(addr: *mut shim::c_void, len: usize) -> shim::c_int {
     unsafe { shim::syscall(shim::SYS_munmap, addr, len) as shim::c_int }
 }
 
+/// functions the library has no business calling, but a "robustness" change might start to consult
+/// (process identity, thread identity, time): faked like any other target
+extern "C" fn fake_getpid() -> shim::c_int {
+    HITS.fetch_add(1, Ordering::SeqCst);
+    4242
+}
+extern "C" fn fake_getppid() -> shim::c_int {
+    HITS.fetch_add(1, Ordering::SeqCst);
+    4243
+}
+extern "C" fn fake_pthread_self() -> usize {
+    HITS.fetch_add(1, Ordering::SeqCst);
+    0x7777_0000
+}
+
 fn scenario(out: &mut impl Write, name: &str, target: usize, fake: usize) {
     let nm = name.to_string();
     let (text, code, sig) = in_child_deadline(30, move |w| {
@@ -69,4 +84,7 @@ pub fn run(_a: &Args, out: &mut impl Write) {
     scenario(out, "sysconf", shim::sysconf as usize, fake_sysconf as usize);
     scenario(out, "mprotect", shim::real::mprotect as usize, fake_mprotect as usize);
     scenario(out, "munmap", shim::real::munmap as usize, fake_munmap as usize);
+    scenario(out, "getpid", shim::getpid as usize, fake_getpid as usize);
+    scenario(out, "getppid", shim::getppid as usize, fake_getppid as usize);
+    scenario(out, "pthread_self", shim::pthread_self as usize, fake_pthread_self as usize);
 }
